@@ -444,7 +444,33 @@ Inductive bm_wire_ok : option N -> bytes -> Prop :=
     bm_wire_ok (Some w) rest ->
     bm_wire_ok prev (w :: len :: data ++ rest).
 
+(* ------------------------------------------- SortedRecords::{from, extend} *)
+(* After sorting, `self.records.dedup()` drops a record that == the previous
+   retained one: Record::eq compares owner (name_eq), class and data.  A record
+   is (owner, rtype, (is ZoneRecordData::Unknown, rdata octets)); two Unknown
+   compare per UnknownRecordData::eq, two records of the same known variant by
+   their data, anything else is different. *)
+Definition srec := (name * N * (bool * bytes))%type.
+Definition sr_name (r : srec) : name := fst (fst r).
+Definition sr_type (r : srec) : N := snd (fst r).
+Definition data_eqb (a b : srec) : bool :=
+  let '(_, ta, (ua, da)) := a in
+  let '(_, tb, (ub, db)) := b in
+  if ua && ub then (if unknown_eq_checks_rtype then ta =? tb else true) && bytes_eqb da db
+  else if ua || ub then false
+  else (ta =? tb) && bytes_eqb da db.
+Definition srec_eqb (a b : srec) : bool := name_eqb (sr_name a) (sr_name b) && data_eqb a b.
+Fixpoint sr_dedup_from (prev : srec) (l : list srec) : list srec :=
+  match l with
+  | [] => []
+  | x :: r => if srec_eqb x prev then sr_dedup_from prev r else x :: sr_dedup_from x r
+  end.
+Definition sr_dedup (l : list srec) : list srec :=
+  match l with [] => [] | x :: r => x :: sr_dedup_from x r end.
+Definition strip (l : list srec) : list rec := map fst l.
+
 (* ------------------------------------------------ executable entry points *)
+Definition c13_dedup (l : list srec) : list rec := strip (sr_dedup l).
 Definition c13_bitmap (ts probes : list N) : bytes * list (outcome bool) :=
   let w := bm_finalize (bm_adds [] ts) in (w, map (bm_contains w) probes).
 Definition c13_nsec (apex : name) (dnskey : bool) (z : list rec) : outcome (list nsec) :=
